@@ -13,6 +13,7 @@ import SkNet.Lemmas.GetDendroMono
 import SkNet.Lemmas.Builders
 import SkNet.Lemmas.Split
 import SkNet.Lemmas.SplitAgree
+import SkNet.Lemmas.SplitPin
 import SkNet.Lemmas.MergeW
 import SkNet.Lemmas.ParisMono
 import SkNet.Lemmas.Reducible
@@ -437,6 +438,77 @@ theorem split_agrees {α : Type} {D : Dendro α} {n1 n2 : Nat} (h1 : 0 < n1) (h2
     rw [← hR]; exact this
   · have := side_agrees (m := n2) (N := n1 + n2) (off := n1) h2 (by omega) hv
     rw [← hC]; exact this
+
+/-- the sharper invariant at the end of the loop, for one side -/
+theorem side_pinned {α : Type} {m N off : Nat} {D : Dendro α} (hm : 0 < m) (hN : off + m ≤ N)
+    (hv : ValidDendro N D = true) :
+    ∃ Lf, BInv m N off D (sideLoop N 0 D (sideInit α m off)) Lf := by
+  have hvl : validLoop N 0 D (liveInit (List.replicate N 1)) = true := by
+    unfold ValidDendro ValidDendroW at hv
+    simp only [Bool.and_eq_true, List.length_replicate] at hv
+    exact hv.2
+  rw [validLoop_eq_isSome] at hvl
+  obtain ⟨Lf, hLf⟩ := Option.isSome_iff_exists.mp hvl
+  have hinit : LInv N 0 (liveInit (List.replicate N 1)) := by simpa using linv_init (List.replicate N 1)
+  have := sideLoop_binv (α := α) (m := m) (N := N) (off := off) D [] _ _ _ Lf (sinv_init (α := α) m N off hm hN)
+    (ainv_init m N off hN) (binv_init m N off hN) (by simpa using hinit) (by simpa using hLf)
+  exact ⟨Lf, by simpa using this⟩
+
+/-- **split_dendrogram agrees with the full dendrogram, with pinned heights** (`split_agrees_pinned`): the merges of
+    the row dendrogram are *exactly* the merges of the full dendrogram that join two clusters both containing rows:
+    every row `u` of `R` comes from such a merge `t` of `D` (same height, leaves = the rows below `t`), and every such
+    merge of `D` appears in `R`; likewise for the columns. (A merge of `D` that only adds columns to a cluster has the
+    same restriction to the rows as the cluster it extends; its height is *not* accepted.) -/
+theorem split_agrees_pinned {α : Type} {D : Dendro α} {n1 n2 : Nat} (h1 : 0 < n1) (h2 : 0 < n2)
+    (hv : ValidDendro (n1 + n2) D = true) {R C : Dendro α} (h : splitDendrogram D n1 n2 = .ok (R, C)) :
+    (∀ (u : Nat) (ru : Row α), R[u]? = some ru → ∃ (t : Nat) (rt : Row α), D[t]? = some rt ∧ ru.h = rt.h ∧
+      sideOf n1 0 (leaves (n1 + n2) D rt.i) ≠ [] ∧ sideOf n1 0 (leaves (n1 + n2) D rt.j) ≠ [] ∧
+      leaves n1 R (n1 + u) = sideOf n1 0 (leaves (n1 + n2) D (n1 + n2 + t))) ∧
+    (∀ (t : Nat) (rt : Row α), D[t]? = some rt → sideOf n1 0 (leaves (n1 + n2) D rt.i) ≠ [] →
+      sideOf n1 0 (leaves (n1 + n2) D rt.j) ≠ [] → ∃ (u : Nat) (ru : Row α), R[u]? = some ru ∧ ru.h = rt.h ∧
+      leaves n1 R (n1 + u) = sideOf n1 0 (leaves (n1 + n2) D (n1 + n2 + t))) ∧
+    (∀ (u : Nat) (cu : Row α), C[u]? = some cu → ∃ (t : Nat) (rt : Row α), D[t]? = some rt ∧ cu.h = rt.h ∧
+      sideOf n2 n1 (leaves (n1 + n2) D rt.i) ≠ [] ∧ sideOf n2 n1 (leaves (n1 + n2) D rt.j) ≠ [] ∧
+      leaves n2 C (n2 + u) = sideOf n2 n1 (leaves (n1 + n2) D (n1 + n2 + t))) ∧
+    (∀ (t : Nat) (rt : Row α), D[t]? = some rt → sideOf n2 n1 (leaves (n1 + n2) D rt.i) ≠ [] →
+      sideOf n2 n1 (leaves (n1 + n2) D rt.j) ≠ [] → ∃ (u : Nat) (cu : Row α), C[u]? = some cu ∧ cu.h = rt.h ∧
+      leaves n2 C (n2 + u) = sideOf n2 n1 (leaves (n1 + n2) D (n1 + n2 + t))) := by
+  have hlen := valid_length hv
+  unfold splitDendrogram at h
+  have e1 : ¬ (D.length < n1 + n2 - 1) := by omega
+  have e2 : D.take (n1 + n2 - 1) = D := List.take_of_length_le (by omega)
+  simp only [e1, if_false, e2, splitLoop_eq, Except.ok.injEq, Prod.mk.injEq] at h
+  obtain ⟨hR, hC⟩ := h
+  obtain ⟨_, hBa⟩ := side_pinned (α := α) (m := n1) (N := n1 + n2) (off := 0) h1 (by omega) hv
+  obtain ⟨_, hBb⟩ := side_pinned (α := α) (m := n2) (N := n1 + n2) (off := n1) h2 (by omega) hv
+  rw [← hR, ← hC]
+  exact ⟨hBa.pin, hBa.conv, hBb.pin, hBb.conv⟩
+
+/-- **split_dendrogram keeps the heights in order** (`split_sorted`): the heights of the row (column) dendrogram are
+    a sublist of the heights of the full one; if the full dendrogram has non-decreasing heights (what every fit with
+    reordering returns), so have `dendrogram_row_` (= `dendrogram_` of a bipartite fit) and `dendrogram_col_`. -/
+theorem split_sorted {α : Type} [LinearOrder α] {D : Dendro α} {n1 n2 : Nat} (h1 : 0 < n1) (h2 : 0 < n2)
+    (hv : ValidDendro (n1 + n2) D = true) {R C : Dendro α} (h : splitDendrogram D n1 n2 = .ok (R, C)) :
+    (R.map (fun (q : Row α) => q.h)).Sublist (D.map (fun (q : Row α) => q.h)) ∧
+    (C.map (fun (q : Row α) => q.h)).Sublist (D.map (fun (q : Row α) => q.h)) ∧
+    (heightsSorted D = true → heightsSorted R = true ∧ heightsSorted C = true) := by
+  have hlen := valid_length hv
+  unfold splitDendrogram at h
+  have e1 : ¬ (D.length < n1 + n2 - 1) := by omega
+  have e2 : D.take (n1 + n2 - 1) = D := List.take_of_length_le (by omega)
+  simp only [e1, if_false, e2, splitLoop_eq, Except.ok.injEq, Prod.mk.injEq] at h
+  obtain ⟨hR, hC⟩ := h
+  obtain ⟨_, hBa⟩ := side_pinned (α := α) (m := n1) (N := n1 + n2) (off := 0) h1 (by omega) hv
+  obtain ⟨_, hBb⟩ := side_pinned (α := α) (m := n2) (N := n1 + n2) (off := n1) h2 (by omega) hv
+  rw [← hR, ← hC]
+  exact ⟨hBa.heights, hBb.heights, fun hs =>
+    ⟨heightsSorted_of_sublist hBa.heights hs, heightsSorted_of_sublist hBb.heights hs⟩⟩
+
+/-- non-vacuity (the reviewer's counter-example to the unpinned statement): rows {0,1}, columns {2,3}; the only merge
+    joining two row clusters is the first one (height 1): the row dendrogram has height 1, not 2 or 3 -/
+example : ValidDendro 4 ([⟨0, 1, 1, 2⟩, ⟨4, 2, 2, 3⟩, ⟨5, 3, 3, 4⟩] : Dendro Nat) = true ∧
+    (splitDendrogram ([⟨0, 1, 1, 2⟩, ⟨4, 2, 2, 3⟩, ⟨5, 3, 3, 4⟩] : Dendro Nat) 2 2).toOption =
+      some ([⟨0, 1, 1, 2⟩], [⟨0, 1, 3, 2⟩]) := by decide
 
 /-! ### AggregateGraph.merge -/
 
